@@ -49,6 +49,8 @@ PROPS = {
     'C02': dict(
         units=['panic'],
         deps=[('builder', 'C04')],
+        kani=[dict(name='c02_unsigned_as_usize_bits', fn='circuit::unsigned_as_usize_bits', label='complete-over-u64',
+                   bound='all u64 values; the 32-iteration loop fully unrolled (unwinding assertions on)')],
         witness=['c02', '--random', '20000'],
         witness_thorough=['c02', '--random', '400000'],
         level='proof',
@@ -62,8 +64,8 @@ PROPS = {
               '(compile arms) is outside every contract; a bounded differential search over operation trees on the real code stands in '
               'for build/EvalPanic layout (labelled bounded).',
         note='Trusted: core builder contracts are proved in unit builder (run as part of this check); vstd specs of HashSet/arrays; '
-             'std::mem::replace specification (assume_specification); unsigned_as_usize_bits contract (external_body in Verus; '
-             'bounded differential search exercises it); source locations < 2^32. '
+             'std::mem::replace specification (assume_specification); unsigned_as_usize_bits contract (external_body in Verus; proved complete over u64 by the Kani '
+             'harness c02_unsigned_as_usize_bits); source locations < 2^32. '
              'Unverified: the save/restore/mux protocol around branches inside compile (If/Match/&&/||/JoinLoop arms).',
         title='panic record: panic iff earlier or cond; never overwritten; first failure wins; untaken branch silent at merges',
         unverified=['which operations call push_panic_if with which condition (C03 for arithmetic; compile arms otherwise)',
@@ -102,6 +104,10 @@ PROPS = {
     'C03': dict(
         units=['arith', 'ops'],
         deps=[('builder', 'C04'), ('panic', 'C02')],
+        kani=[dict(name=n, fn='compile::extend_to_bits', label='complete-for-this-width-pair', thorough_only=t,
+                   bound='symbolic wire values and signedness, widening ' + n.split('_', 2)[2].replace('_', ' -> ') + ' bits, loops fully unrolled')
+              for n, t in [('c03_extend_8_32', False), ('c03_extend_1_8', False), ('c03_extend_8_16', True), ('c03_extend_8_64', True),
+                           ('c03_extend_16_32', True), ('c03_extend_16_64', True), ('c03_extend_32_64', True)]],
         witness=['c03', '--random', '3000'],
         witness_thorough=['c03', '--exhaustive8', '--random', '40000', '--consts', '12'],
         level='proof',
@@ -157,5 +163,49 @@ PROPS = {
         title='type agreement deciders: mismatching operand / expected types are rejected with an error, for all types and expressions',
         unverified=['UntypedExpr/Stmt/Pattern::type_check (that every rule consults the deciders)', 'Env scoping and mutability checks',
                     'recursion detection, unused-function and pub-without-params checks', 'refutability of let / for patterns', 'constrain_type body'],
+    ),
+    'C09': dict(
+        units=[],
+        deps=[],
+        kani=[
+            dict(name='c09_signed_to_bits_layout', fn='compile::signed_to_bits', label='complete-over-i64-x-sizes',
+                 bound='all i64 values x all sizes 0..=64; loops fully unrolled (unwinding assertions on)'),
+            dict(name='c09_unsigned_to_bits_layout_and_roundtrip', fn='compile::{unsigned_to_bits, wires_as_unsigned}', label='complete-over-u64-x-sizes',
+                 bound='all u64 values x all sizes 0..=64; loops fully unrolled (unwinding assertions on)'),
+        ],
+        witness=['c09', '--values', '60'],
+        witness_thorough=['c09', '--values', '3000'],
+        level='other',
+        technique='Kani harnesses on the real integer encoders/decoders (complete over all 64-bit values and sizes) + bounded differential check of the '
+                  'literal API against a reference value model',
+        claim='Integer layer PROVED complete-over-domain by Kani/CBMC on the real functions: unsigned_to_bits / signed_to_bits append exactly `size` bits, '
+              'bit i being bit size-1-i of the value (big-endian two\'s complement), for every 64-bit value and every size 0..=64, and '
+              'wires_as_unsigned decodes them back whenever the value fits. Aggregate layers (arrays, tuples, structs, enums, Literal::parse / Display, '
+              'is_of_type, from_result_bits) are NOT under contract (recursion over Literal with HashMap<String,_> lookups, closures, formatter): a '
+              'bounded differential check through compile / literal_arg / parse_arg / as_bits / eval / parse_output compares 19 types x random and '
+              'boundary values with a reference model of the documented layout (size, exact bits, print-parse round trip, identity program) and 21 '
+              'hostile literals (out-of-range numbers, permuted / duplicated / missing struct fields, wrong enum arity, inverted or oversized ranges) '
+              'which must be refused or encode canonically, never panic.',
+        note='Trusted: Kani/CBMC; the reference encoder in replay/src/c09.rs. Bounded part is labelled bounded and not counted as proved.',
+        title='literal encoding: integer encoders/decoders proved for all values and sizes (Kani); aggregates, parsing, validation by bounded differential',
+        unverified=['Literal::as_bits / from_unwrapped_bits / from_result_bits aggregate arms', 'Literal::parse, Display', 'Literal::is_of_type',
+                    'Evaluator::set_* / TryFrom<EvalOutput>'],
+    ),
+    'C12': dict(
+        units=['consts'],
+        deps=[],
+        witness=None,
+        level='proof',
+        technique='Verus contracts on the arithmetic arms of resolve_const_expr_{usize,unsigned,signed} (macro instantiated by R6, arms lifted by R5) against a recursive spec function',
+        claim='Deductive proof (Verus/Z3), for every expression tree and every constant assignment, that each arithmetic arm of the three instances of '
+              'the real const-expression evaluator returns the value of the spec function ceval: a literal is its value, max / min are the maximum / '
+              'minimum of the arguments, + and - wrap in the constant\'s type; the recursive calls are assumed by the same contract (structural '
+              'induction). The two lookup arms (format! + HashMap<String,_>) are trusted; substitution equivalence of whole programs, array sizes / '
+              'loop counts / party numbers following the constants and the reporting of missing or mistyped constants (compile_with_constants) are '
+              'NOT under contract.',
+        note='Trusted: lookup arms (uninterpreted); std::cmp::max / min specification (assume_specification); vstd. Rules R5, R6, R7.',
+        title='const expressions: literal / min / max / wrapping + and - arms equal the spec evaluation, for all trees and assignments (3 instances)',
+        unverified=['ExternalValue / ConstExprIdent lookup arms', 'compile_with_constants (const_deps, const_sizes, error reporting)',
+                    'const definition checking in check.rs', 'truncation of the 64-bit result to the declared width (unsigned_to_bits, see C09)'],
     ),
 }
